@@ -109,7 +109,9 @@ class Ref:
             self.depth -= 1
             if self.esp:
                 self.esp.pop()
-                self.calls.pop()
+                c = self.calls.pop()
+                if pc != self.states[c][0] + 3:       # returns_to_caller on this run (the generator's calls are disciplined)
+                    raise ValueError("reference run: the call at instruction %d does not return to the instruction after it" % c)
         elif op == 0x4C:
             pc = m[pc + 1] | (m[pc + 2] << 8)
         elif op in (0xD0, 0xF0):
@@ -473,6 +475,8 @@ class Session:
         if not r.ok:
             raise Failure("error", "%s failed: %r" % (command, r))
         self.stats["steps"] += 1
+        if prev is not None and self.prog.ref.st(prev)[8] >= 2:
+            self.stats["steps_from_nested_activation"] = self.stats.get("steps_from_nested_activation", 0) + 1
         if command == "stepOut":
             self.stats["stepouts"] += 1
             if prev is not None and self.prog.ref.stack_dirty(prev):
@@ -784,6 +788,8 @@ def run(chk):
         s.run()
         dist["sessions"] += 1
         dist["sessions_sched"] += 1 if sched is not None else 0
+        dist["programs_recursive"] = dist.get("programs_recursive", 0) + (1 if "rec:" in prog.text else 0)
+        dist["programs_segments_out_of_order"] = dist.get("programs_segments_out_of_order", 0) + (1 if ".segment" in prog.text else 0)
         absorb(chk, "random%d" % i, s, dist, distinct, model, protocol)
         if i < 2:
             chk.sample({"program": prog.text, "sched": sched, "stops": s.stop_records[:8]})
